@@ -697,3 +697,257 @@ Section EngineGlobalP.
     intros H1 H2 g. destruct (run_LogInv cs H1 H2) as [Ic _]. destruct (Ic a) as [Hc Hn]. fold g in Hc, Hn.
     split; [|exact Hn]. rewrite Hn, Nat2N.id. exact (countdown_rev _ Hc).
   Qed.
+
+  (* ---------- the pool ---------- *)
+
+  (* what one call can do to the pool: nothing; a drain; parking; the expiry sweep of a
+     finalised block; a resynchronisation *)
+  Lemma pool_step_shape g c :
+    let g' := fst (e_step g c) in
+    (g_pool g' = g_pool g /\ g_h g' = g_h g /\ next_h g' = next_h g) \/
+    (exists a n idx ts h vs k, c = CRaw (DSigned a n) idx ts h vs /\ snd (e_step g c) = OOk k /\ 1 <= k /\
+        g_pool g' = filter (out_of_range a (n + 1) (n + k)) (g_pool g) /\ g_h g' = g_h g /\ next_h g' = next_h g) \/
+    (exists a n idx ts h vs, c = CRaw (DSigned a n) idx ts h vs /\ nonce_of g a < n /\ g' = parked_state g a n) \/
+    (((exists ts h cnt, c = CFinalise ts h cnt) \/ (exists cnt ts, c = CMine cnt ts) \/ (exists h ts hg, c = CInit h ts hg)) /\
+     exists b, g_h g' = Some b /\ next_h g' = b + 1 /\ next_h g <= b /\ g_pool g' = filter (unexpired_at b) (g_pool g)) \/
+    (exists hc bl nn pl, c = CClear hc bl nn pl) \/
+    (exists n nn pl, c = CReorg n nn pl).
+  Proof.
+    intros g'. subst g'.
+    destruct c as [a idx ts h v|d idx ts h vs|ts h cnt|cnt ts|h ts hg| |hc bl nn pl|n nn pl|].
+    - left. cbn [Engine.e_step].
+      destruct (exec_tx g a (nonce_of g a) idx ts (resolve_hash h (next_h g)) (next_h g) v) as [g1|] eqn:He;
+        cbn [fst]; [|repeat split].
+      destruct (exec_tx_fields _ _ _ _ _ _ _ _ _ He) as (_ & _ & _ & _ & _ & Hh & Hp & _).
+      destruct (exec_tx_more _ _ _ _ _ _ _ _ _ He) as (_ & _ & Hn). repeat split; assumption.
+    - destruct d as [| |a n]; [left; repeat split|left; repeat split|].
+      destruct (transact_cases g a n idx ts h vs) as [(E & g1 & g2 & k & He & Hd & Hs)|[(E & He & Hs)|[(Hlt & _ & Hs)|(E & Hs)]]].
+      + right. left. exists a, n, idx, ts, h, vs, k.
+        assert (Hk : snd (e_step g (CRaw (DSigned a n) idx ts h vs)) = OOk k) by (rewrite Hs; reflexivity).
+        pose proof (drain_done_le _ _ _ _ _ _ _ _ _ _ _ _ Hd) as Hle.
+        destruct (transact_drain_spec g a n idx ts h vs k Hk) as (_ & Hspec).
+        destruct (Hspec Hle) as (_ & _ & _ & _ & Hpool & _).
+        destruct (transact_receipts_match W FN FB IDX g (DSigned a n) idx ts h vs k Hk) as (_ & Hb & Hh).
+        repeat split; try assumption. exact (next_h_ext _ _ Hh Hb).
+      + left. rewrite Hs. repeat split.
+      + right. right. left. exists a, n, idx, ts, h, vs. rewrite Hs. repeat split. exact Hlt.
+      + left. rewrite Hs. repeat split.
+    - cbn [Engine.e_step].
+      destruct (finalise g ts (resolve_hash h (next_h g)) (next_h g) cnt) as [g1|] eqn:Ef; cbn [fst]; [|left; repeat split].
+      destruct (finalise_fields _ _ _ _ _ _ Ef) as (Hh & _ & _ & Hp & Hnx).
+      right. right. right. left. split; [left; eauto|]. exists (next_h g). repeat split; try assumption. lia.
+    - cbn [Engine.e_step]. destruct (negb (g_wait g =? 0) || g_dirty g); cbn [fst]; [left; repeat split|].
+      destruct (mine (N.to_nat cnt) g (next_h g) ts) as [g1|] eqn:Em; cbn [fst]; [|left; repeat split].
+      destruct (mine_fields _ _ _ _ _ Em) as (_ & _ & Hrest).
+      destruct (N.to_nat cnt) as [|f]; [subst g1; left; repeat split|].
+      destruct Hrest as (Hh & Hnx & Hp).
+      right. right. right. left. split; [right; left; eauto|]. exists (next_h g + N.of_nat (S f) - 1).
+      repeat split; try assumption; lia.
+    - cbn [Engine.e_step]. destruct (find (fun b => fst b =? hg) (g_blocks g)) as [b|].
+      + left. destruct (snd b =? resolve_hash h hg); cbn [fst]; repeat split.
+      + destruct (N.eqb_spec hg (next_h g)) as [->|Hne]; cbn [negb orb fst]; [|left; repeat split].
+        destruct (negb (nonce_of g IDX =? 0)); cbn [fst]; [left; repeat split|].
+        destruct (exec_tx g IDX (nonce_of g IDX) 0 ts (resolve_hash h (next_h g)) (next_h g) true) as [g1|] eqn:He;
+          cbn [fst]; [|left; repeat split].
+        destruct (exec_tx_fields _ _ _ _ _ _ _ _ _ He) as (_ & _ & _ & _ & _ & Hh1 & Hp1 & _).
+        destruct (exec_tx_more _ _ _ _ _ _ _ _ _ He) as (_ & _ & Hn1).
+        destruct (finalise g1 ts (resolve_hash h (next_h g)) (next_h g) 1) as [g2|] eqn:Ef; cbn [fst].
+        * destruct (finalise_fields _ _ _ _ _ _ Ef) as (Hh & _ & _ & Hp & Hnx).
+          right. right. right. left. split; [right; right; eauto|]. exists (next_h g).
+          rewrite Hp1 in Hp. repeat split; try assumption. lia.
+        * left. repeat split; assumption.
+    - left. cbn [Engine.e_step]. destruct (negb (g_wait g =? 0) || g_dirty g); cbn [fst]; repeat split.
+    - right. right. right. right. left. eauto.
+    - right. right. right. right. right. eauto.
+    - left. repeat split.
+  Qed.
+
+  (* A3 (i), (ii) *)
+  Definition PoolInv (g : eng) : Prop :=
+    NoDup (map fst (g_pool g)) /\ forall p, In p (g_pool g) -> snd p <= next_h g.
+
+  Lemma pool_wf_spec g : pool_wf g = true -> PoolInv g.
+  Proof.
+    unfold pool_wf. intros H. apply andb_prop in H as [H1 H2]. split; [exact (keys_distinct_NoDup _ H1)|].
+    intros p Hp. rewrite forallb_forall in H2. apply N.leb_le. exact (H2 p Hp).
+  Qed.
+
+  Lemma PoolInv_filter g g' f :
+    g_pool g' = filter f (g_pool g) -> next_h g <= next_h g' -> PoolInv g -> PoolInv g'.
+  Proof.
+    intros Hp Hn [H1 H2]. split; rewrite Hp; [exact (NoDup_map_filter fst f _ H1)|].
+    intros p Hin. apply filter_In in Hin as [Hin _]. specialize (H2 p Hin). lia.
+  Qed.
+
+  Lemma pool_remove_no_key pool a n p : In p (pool_remove pool a n) -> fst p <> (a, n).
+  Proof.
+    unfold pool_remove. intros H E. apply filter_In in H as [_ H].
+    apply (proj2 (key_is_true a n p)) in E. unfold key_is in E. rewrite E in H. discriminate.
+  Qed.
+
+  Theorem step_PoolInv g c :
+    resync_pool_wf W FN FB IDX g c = true -> PoolInv g -> PoolInv (fst (e_step g c)).
+  Proof.
+    intros H3 I.
+    destruct (pool_step_shape g c) as [(Hp & _ & Hn)|[(a & n & idx & ts & h & vs & k & _ & _ & _ & Hp & _ & Hn)|
+      [(a & n & idx & ts & h & vs & _ & _ & Hg)|[(_ & b & _ & Hn & Hle & Hp)|[(hc & bl & nn & pl & ->)|(n & nn & pl & ->)]]]]].
+    - destruct I as [I1 I2]. split; rewrite Hp; [exact I1|]. intros p Hin. rewrite Hn. exact (I2 p Hin).
+    - apply (PoolInv_filter g _ _ Hp); [lia|exact I].
+    - rewrite Hg. destruct I as [I1 I2]. split.
+      + unfold parked_state, pool_put. cbn [g_pool map fst]. constructor.
+        * intros Hin. apply in_map_iff in Hin as (q & Hq & Hin). exact (pool_remove_no_key _ _ _ _ Hin Hq).
+        * exact (NoDup_map_filter fst _ _ I1).
+      + intros p [<-|Hin]; [cbn [snd]; apply N.le_refl|].
+        apply filter_In in Hin as [Hin _]. exact (I2 p Hin).
+    - apply (PoolInv_filter g _ _ Hp); [lia|exact I].
+    - exact (pool_wf_spec _ H3).
+    - exact (pool_wf_spec _ H3).
+  Qed.
+
+  Lemma PoolInv_init : PoolInv g_init.
+  Proof. split; [constructor|intros p []]. Qed.
+
+  Theorem run_PoolInv cs :
+    run_all (resync_pool_wf W FN FB IDX) g_init cs = true -> PoolInv (run g_init cs).
+  Proof. intros H3. exact (run_inv1 PoolInv _ step_PoolInv cs g_init H3 PoolInv_init). Qed.
+
+  (* A3 (iii), globally: no entry of the pool is expired at the height of the chain *)
+  Definition PoolFresh (g : eng) : Prop :=
+    forall h, g_h g = Some h -> forall p, In p (g_pool g) -> h < snd p + FB.
+
+  Lemma pool_unexpired_spec g : pool_unexpired FB g = true -> PoolFresh g.
+  Proof.
+    unfold pool_unexpired. intros H h Hh p Hp. rewrite Hh, forallb_forall in H. apply N.ltb_lt. exact (H p Hp).
+  Qed.
+
+  Theorem step_PoolFresh g c :
+    0 < FB -> resync_pool_unexpired W FN FB IDX g c = true -> PoolFresh g -> PoolFresh (fst (e_step g c)).
+  Proof.
+    intros HFB H3 I.
+    destruct (pool_step_shape g c) as [(Hp & Hh & _)|[(a & n & idx & ts & h & vs & k & _ & _ & _ & Hp & Hh & _)|
+      [(a & n & idx & ts & h & vs & _ & _ & Hg)|[(_ & b & Hh & _ & _ & Hp)|[(hc & bl & nn & pl & ->)|(n & nn & pl & ->)]]]]].
+    - intros h' Hh' p Hin. rewrite Hp in Hin. rewrite Hh in Hh'. exact (I h' Hh' p Hin).
+    - intros h' Hh' p Hin. rewrite Hp in Hin. apply filter_In in Hin as [Hin _]. rewrite Hh in Hh'. exact (I h' Hh' p Hin).
+    - rewrite Hg. intros h' Hh' p [<-|Hin].
+      + cbn [snd]. pose proof (height_le_next g h' Hh'). lia.
+      + apply filter_In in Hin as [Hin _]. exact (I h' Hh' p Hin).
+    - intros h' Hh' p Hin. rewrite Hh in Hh'. injection Hh' as <-. rewrite Hp in Hin.
+      apply filter_In in Hin as [_ Hin]. apply N.ltb_lt. exact Hin.
+    - exact (pool_unexpired_spec _ H3).
+    - exact (pool_unexpired_spec _ H3).
+  Qed.
+
+  Theorem run_PoolFresh cs :
+    0 < FB -> run_all (resync_pool_unexpired W FN FB IDX) g_init cs = true -> PoolFresh (run g_init cs).
+  Proof.
+    intros HFB H3. apply (run_inv1 PoolFresh _ (fun g c => step_PoolFresh g c HFB) cs g_init H3).
+    intros h Hh. discriminate.
+  Qed.
+
+  (* A3 (iii), one step: an accepted finalise / mine sweeps every entry that is expired at the
+     block it creates, and nothing else *)
+  Theorem finalise_sweeps_expired g ts h cnt :
+    snd (e_step g (CFinalise ts h cnt)) = OOk 0 ->
+    let g' := fst (e_step g (CFinalise ts h cnt)) in
+    g_h g' = Some (next_h g) /\
+    forall p, In p (g_pool g') <-> In p (g_pool g) /\ next_h g < snd p + FB.
+  Proof.
+    cbn [Engine.e_step].
+    destruct (finalise g ts (resolve_hash h (next_h g)) (next_h g) cnt) as [g1|] eqn:Ef; cbn [fst snd]; [|discriminate].
+    intros _. destruct (finalise_fields _ _ _ _ _ _ Ef) as (Hh & _ & _ & Hp & _). split; [exact Hh|].
+    intros p. rewrite Hp, filter_In. unfold unexpired_at. rewrite N.ltb_lt. reflexivity.
+  Qed.
+
+  Theorem mine_sweeps_expired g cnt ts :
+    snd (e_step g (CMine cnt ts)) = OOk 0 -> 0 < cnt ->
+    let g' := fst (e_step g (CMine cnt ts)) in
+    g_h g' = Some (next_h g + cnt - 1) /\
+    forall p, In p (g_pool g') <-> In p (g_pool g) /\ next_h g + cnt - 1 < snd p + FB.
+  Proof.
+    cbn [Engine.e_step]. destruct (negb (g_wait g =? 0) || g_dirty g); cbn [fst snd]; [discriminate|].
+    destruct (mine (N.to_nat cnt) g (next_h g) ts) as [g1|] eqn:Em; cbn [fst snd]; [|discriminate].
+    intros _ Hc. destruct (mine_fields _ _ _ _ _ Em) as (_ & _ & Hrest).
+    destruct (N.to_nat cnt) as [|f] eqn:En; [lia|]. destruct Hrest as (Hh & _ & Hp).
+    replace (N.of_nat (S f)) with cnt in * by lia. split; [exact Hh|].
+    intros p. rewrite Hp, filter_In. unfold unexpired_at. rewrite N.ltb_lt. reflexivity.
+  Qed.
+
+  Lemma not_in_filter {A} (f : A -> bool) l x : In x l -> ~ In x (filter f l) -> f x = false.
+  Proof. intros Hin Hn. destruct (f x) eqn:E; [|reflexivity]. exfalso. apply Hn. apply filter_In. auto. Qed.
+
+  Lemma pool_find_of_entry g p :
+    NoDup (map fst (g_pool g)) -> In p (g_pool g) -> pool_find g (fst (fst p)) (snd (fst p)) = Some (snd p).
+  Proof.
+    intros Hd Hin. pose proof (find_key_NoDup _ _ Hd Hin) as F. unfold key_is in F.
+    unfold pool_find. rewrite F. reflexivity.
+  Qed.
+
+  (* A3 (iv): the only ways out of the pool *)
+  Theorem pool_entry_leaves_only g c p :
+    PoolInv g -> In p (g_pool g) -> ~ In p (g_pool (fst (e_step g c))) ->
+    (* executed by the drain of a transact, while fresh *)
+    (exists a n idx ts h vs k, c = CRaw (DSigned a n) idx ts h vs /\ snd (e_step g c) = OOk k /\
+       fst (fst p) = a /\ n < snd (fst p) /\ snd (fst p) < n + k /\ next_h g < FB + snd p /\
+       In (next_h g, idx + (snd (fst p) - n), a, snd (fst p), nth (N.to_nat (snd (fst p) - n)) vs true)
+          (g_log (fst (e_step g c)))) \/
+    (* found expired by the drain of a transact: dropped, the drain stops *)
+    (exists a n idx ts h vs k, c = CRaw (DSigned a n) idx ts h vs /\ snd (e_step g c) = OOk k /\ 1 <= k /\
+       fst p = (a, n + k) /\ FB + snd p <= next_h g) \/
+    (* replaced by a later inscription of the same (account, nonce) *)
+    (exists a n idx ts h vs, c = CRaw (DSigned a n) idx ts h vs /\ fst p = (a, n) /\ snd p < next_h g /\
+       In (a, n, next_h g) (g_pool (fst (e_step g c)))) \/
+    (* expired at the block a finalise / mine / initialise creates *)
+    (((exists ts h cnt, c = CFinalise ts h cnt) \/ (exists cnt ts, c = CMine cnt ts) \/ (exists h ts hg, c = CInit h ts hg)) /\
+     exists b, g_h (fst (e_step g c)) = Some b /\ snd p + FB <= b) \/
+    (* resynchronisation *)
+    (exists hc bl nn pl, c = CClear hc bl nn pl) \/
+    (exists n nn pl, c = CReorg n nn pl).
+  Proof.
+    intros [Id Ib] Hin Hout.
+    destruct (pool_step_shape g c) as [(Hp & _ & _)|[(a & n & idx & ts & h & vs & k & Hc & Hk & Hk1 & Hp & _ & _)|
+      [(a & n & idx & ts & h & vs & Hc & _ & Hg)|[(Hc & b & Hh & _ & _ & Hp)|[Hc|Hc]]]]].
+    - exfalso. apply Hout. rewrite Hp. exact Hin.
+    - rewrite Hp in Hout. pose proof (not_in_filter _ _ _ Hin Hout) as Ho. unfold out_of_range in Ho.
+      apply negb_false_iff in Ho. apply andb_prop in Ho as [Ho H2]. apply andb_prop in Ho as [Ha H1].
+      apply N.eqb_eq in Ha. apply N.leb_le in H1, H2.
+      pose proof (pool_find_of_entry g p Id Hin) as Hf. rewrite Ha in Hf.
+      rewrite Hc in *. destruct (transact_drain_spec g a n idx ts h vs k Hk) as (Hlog & Hspec).
+      destruct (Hspec Hk1) as (_ & _ & Hex & Hstop & _).
+      destruct (N.eq_dec (snd (fst p)) (n + k)) as [E|E].
+      + right. left. exists a, n, idx, ts, h, vs, k. repeat split; try assumption.
+        * destruct p as [[pa pn] pb]. cbn [fst snd] in *. congruence.
+        * rewrite E in Hf. rewrite Hf in Hstop. destruct Hstop as [Hn|(b' & [= <-] & Hle)]; [discriminate|exact Hle].
+      + left. exists a, n, idx, ts, h, vs, k.
+        destruct (Hex (snd (fst p)) ltac:(lia) ltac:(lia)) as (b' & Hb' & Hfresh).
+        rewrite Hf in Hb'. injection Hb' as <-.
+        repeat split; try assumption; try lia.
+        rewrite Hlog. apply in_or_app. left. rewrite <- in_rev. unfold drained_entries.
+        apply in_map_iff. exists (N.to_nat (snd (fst p) - n)). split; [|apply in_seq; lia].
+        rewrite N2Nat.id. replace (n + (snd (fst p) - n)) with (snd (fst p)) by lia. reflexivity.
+    - right. right. left. exists a, n, idx, ts, h, vs. rewrite Hg in *.
+      unfold parked_state, pool_put in *. cbn [g_pool] in *.
+      assert (Hk : key_is a n p = true).
+      { destruct (key_is a n p) eqn:E; [reflexivity|]. exfalso. apply Hout. right.
+        unfold pool_remove. apply filter_In. split; [exact Hin|]. unfold key_is in E. rewrite E. reflexivity. }
+      apply key_is_true in Hk. split; [exact Hc|]. split; [exact Hk|]. split; [|left; reflexivity].
+      specialize (Ib p Hin). destruct (N.eq_dec (snd p) (next_h g)) as [E|E]; [|lia].
+      exfalso. apply Hout. left. destruct p as [[pa pn] pb]. cbn [fst snd] in *. congruence.
+    - right. right. right. left. split; [exact Hc|]. exists b. split; [exact Hh|].
+      rewrite Hp in Hout. pose proof (not_in_filter _ _ _ Hin Hout) as Ho. unfold unexpired_at in Ho.
+      apply N.ltb_ge in Ho. exact Ho.
+    - right. right. right. right. left. exact Hc.
+    - right. right. right. right. right. exact Hc.
+  Qed.
+End EngineGlobalP.
+
+Lemma drained_entries_shape number idx a n vs m :
+  map l_block (drained_entries number idx a n vs m) = repeat number m /\
+  map l_acct (drained_entries number idx a n vs m) = repeat a m /\
+  map l_idx (drained_entries number idx a n vs m) = map (fun i => idx + N.of_nat i) (seq 0 m) /\
+  map l_nonce (drained_entries number idx a n vs m) = map (fun i => n + N.of_nat i) (seq 0 m).
+Proof.
+  unfold drained_entries. rewrite !map_map. cbn [l_block l_acct l_idx l_nonce fst snd].
+  repeat split; try reflexivity.
+  - generalize 0%nat. induction m as [|m IH]; intros s; cbn [seq map repeat]; [reflexivity|]. rewrite IH. reflexivity.
+  - generalize 0%nat. induction m as [|m IH]; intros s; cbn [seq map repeat]; [reflexivity|]. rewrite IH. reflexivity.
+Qed.
